@@ -46,6 +46,7 @@ ASSUMPTIONS = ["cplex stand-in: /verif/bounded/standin_cplex.py replaces the pro
 
 TINY = 2.0 ** -10
 SITE_SELECT = "ExactAlgorithm selector, cplex absent"
+SITE_ROWS = "ExactAlgorithmCplex rows / senses handed to linear_constraints.add"
 RECORD = []          # models seen by the stand-in in this worker (filled by _RecConstraints)
 
 
@@ -270,8 +271,9 @@ def check_case(case):
                 return None         # documented refusal
             bad_model = next((m for m in map(_model_defect, RECORD) if m), None)
             if bad_model:
-                fails.append({"clause": "C05.cplex.sense_len", "site": "%s, %s" % (name, mode),
-                              "detail": {"problem": bad_model, "exception": type(e).__name__, "message": str(e)[:200]}})
+                fails.append({"clause": "C05.cplex.sense_len", "site": SITE_ROWS,
+                              "detail": {"config": name, "problem": bad_model, "exception": type(e).__name__,
+                                         "message": str(e)[:200]}})
             elif not present and name.startswith("Exact("):
                 fails.append({"clause": "C05.select.fallback", "site": SITE_SELECT,
                               "detail": {"config": name, "exception": type(e).__name__, "message": str(e)[:200]}})
@@ -283,8 +285,8 @@ def check_case(case):
         if present:
             bad_model = next((m for m in map(_model_defect, RECORD) if m), None)
             if bad_model:
-                fails.append({"clause": "C05.cplex.sense_len", "site": "%s, %s" % (name, mode),
-                              "detail": {"problem": bad_model}})
+                fails.append({"clause": "C05.cplex.sense_len", "site": SITE_ROWS,
+                              "detail": {"config": name, "problem": bad_model}})
         site = "%s, %s: %s" % (name, mode, category)
         wf = algs.well_formed(cons, set(universe), one)
         if wf is not None:
